@@ -31,6 +31,12 @@ pub fn emit(seed: u64, n: usize, dir: &str, deep: usize) {
         let fa = textgen::num_f(&mut r); let fs = textgen::num_f(&mut r); let fnv = textgen::u(&mut r);
         let fmt_text: String = trees.iter().map(|t| format!("{}", t)).collect();
         let stack = if i % 17 == 3 { 256usize } else { *r.pick(&[1usize, 2, 8]) };
+        // announced before the call: if the process dies inside it (a stack too small for the tree is an abort, not a panic),
+        // the last announcement names the failing input
+        println!("@@BEGIN@@ case {} form {} ({}) children {} chain_depth {} stack_mb {}", i, form,
+                 ["Scad::save", "scad_file!(stack, path, children)", "scad_file!(.., fa=..)", "scad_file!(.., fs=..)", "scad_file!(.., fa=.., fs=..)", "scad_file!(.., fn=..)"][form],
+                 trees.len(), if i % 17 == 3 { deep } else { 0 }, stack);
+        { use std::io::Write; let _ = std::io::stdout().flush(); }
         let p2 = path.clone();
         let t2 = trees.clone();
         let ok = catch(move || {
